@@ -246,6 +246,12 @@ class DictDecoder:
         """
         # xs:anyAttributes get it out of the way, it's the mapping exception!
         if var.is_attributes:
+            if not isinstance(value, dict):
+                raise ParserError(
+                    f"Failed to bind '{value}' "
+                    f"to {meta.clazz.__qualname__}.{var.name} field"
+                )
+
             return dict(value)
 
         # Repeating element, recursively bind the values
